@@ -1,10 +1,12 @@
 /-
-C16: the bottleneck (fairness) property of the result of `maxminSolve` at eps = 0, for systems of summing (SHARED)
-constraints.  Ghost invariant: `BN S M fixed value` — every fixed variable has value·penalty ≤ M (M = the largest
-min_usage so far) and is either at its bound or has a *closed* (all consumers fixed), *saturated* (capacity − load = 0)
-constraint on which its value·penalty is the largest.
+C16: the bottleneck (fairness) property of the result of `maxminSolve` at eps = 0, for every well-formed system (SHARED
+and FATPIPE constraints).  Ghost invariant: `BN S M fixed value` — every fixed variable has value·penalty ≤ M (M = the
+largest min_usage so far) and is either at its bound or has a *closed* (all consumers fixed), *saturated* (summing:
+capacity − Σ w·value = 0; FATPIPE: some consumer has w·value = capacity) constraint on which its value·penalty is the
+largest.  The FATPIPE case rests on `InvA` (Fat.lean).
 -/
 import SgVerif.Lmm.Lemmas
+import SgVerif.Lmm.Fat
 namespace SgVerif.Lmm
 
 theorem fixVar_fixed (S : Sys) (eps : Rat) (st : St) (v : Nat) (x : Rat) :
@@ -58,7 +60,8 @@ def Rec (S : Sys) (fixed : Nat → Bool) (value : Nat → Rat) (u : Nat) : Prop 
   (0 < (S.var u).bound ∧ value u = (S.var u).bound) ∨
   ∃ c ∈ S.active, (∃ e ∈ (S.cnst c).elems, e.1 = u ∧ 0 < e.2) ∧
     (∀ e ∈ (S.cnst c).elems, 0 < e.2 → fixed e.1 = true) ∧
-    (S.cnst c).bound - fixedLoad S fixed value c = 0 ∧
+    (((S.cnst c).fatpipe = false ∧ (S.cnst c).bound - fixedLoad S fixed value c = 0) ∨
+     ((S.cnst c).fatpipe = true ∧ ∃ e ∈ (S.cnst c).elems, 0 < e.2 ∧ fixed e.1 = true ∧ e.2 * value e.1 = (S.cnst c).bound)) ∧
     ∀ e ∈ (S.cnst c).elems, 0 < e.2 → value e.1 * (S.var e.1).penalty ≤ value u * (S.var u).penalty
 
 structure BN (S : Sys) (M : Rat) (fixed : Nat → Bool) (value : Nat → Rat) : Prop where
@@ -89,13 +92,15 @@ theorem Rec_mono (S : Sys) (hwf : WF S) (f f' : Nat → Bool) (v v' : Nat → Ra
   · left; rw [(hmono u hu).2]; exact h
   · right
     refine ⟨c, hc, hmem, fun e he hw => (hmono e.1 (hcl e he hw)).1, ?_, ?_⟩
-    · rw [fixedLoad_closed S hwf f f' v v' c hc hmono hcl]; exact hsat
+    · rcases hsat with ⟨hfp, hsat⟩ | ⟨hfp, e0, he0, hw0, hf0, hv0⟩
+      · left; rw [fixedLoad_closed S hwf f f' v v' c hc hmono hcl]; exact ⟨hfp, hsat⟩
+      · right; exact ⟨hfp, e0, he0, hw0, (hmono e0.1 hf0).1, by rw [(hmono e0.1 hf0).2]; exact hv0⟩
     · intro e he hw
       rw [(hmono e.1 (hcl e he hw)).2, (hmono u hu).2]; exact hmax e he hw
 
 
-theorem round_bn (S : Sys) (hwf : WF S) (hsh : ∀ c ∈ S.active, (S.cnst c).fatpipe = false) (st : St) (M : Rat)
-    (hR : RInv S st (satVarUpdate S st [])) (hBN : BN S M st.fixed st.value)
+theorem round_bn (S : Sys) (hwf : WF S) (st : St) (M : Rat)
+    (hR : RInv S st (satVarUpdate S st [])) (hA : InvA S st 0 []) (hBN : BN S M st.fixed st.value)
     (hM : ∀ c ∈ st.light, M * st.usage c ≤ st.remaining c) :
     ∃ M', BN S M' (round S 0 st (satVarUpdate S st [])).fixed (round S 0 st (satVarUpdate S st [])).value ∧
       ∀ c ∈ (round S 0 st (satVarUpdate S st [])).light,
@@ -178,24 +183,44 @@ theorem round_bn (S : Sys) (hwf : WF S) (hsh : ∀ c ∈ S.active, (S.cnst c).fa
             | true => exact (hkeep e'.1 hf0).1
             | false => exact (hsel e'.1 (hspec.2.2 c hcs e' he' hw' hf0) (Or.inl hneg)).1
           refine ⟨c, hca, ⟨e, he, heu, hw⟩, hclosed, ?_, ?_⟩
-          · have hfl : fixedLoad S st1.fixed st1.value c = fixedLoad S st.fixed st.value c +
-                st.minUsage * freeSum S st.fixed c := by
-              unfold fixedLoad freeSum
-              apply sumBy_lin
-              intro e' he'
-              cases hf0 : st.fixed e'.1 with
-              | true => rw [(hkeep e'.1 hf0).1, (hkeep e'.1 hf0).2]; simp
-              | false =>
-                have hw0 := hwf.el_w c hca e' he'
-                by_cases hw' : 0 < e'.2
-                · have hin := hspec.2.2 c hcs e' he' hw' hf0
-                  have h2 := hsel e'.1 hin (Or.inl hneg)
-                  rw [h2.1, h2.2]; simp only [hneg, if_true]; simp; ring
-                · have : e'.2 = 0 := by linarith
-                  simp [this]
-            have h1 := (hsat c hcs).2
-            rw [hK0r c hca (hsh c hca), hK0u c hca (hsh c hca)] at h1
-            rw [hfl]; linarith
+          · cases hfp : (S.cnst c).fatpipe with
+            | false =>
+              left
+              refine ⟨rfl, ?_⟩
+              have hfl : fixedLoad S st1.fixed st1.value c = fixedLoad S st.fixed st.value c +
+                  st.minUsage * freeSum S st.fixed c := by
+                unfold fixedLoad freeSum
+                apply sumBy_lin
+                intro e' he'
+                cases hf0 : st.fixed e'.1 with
+                | true => rw [(hkeep e'.1 hf0).1, (hkeep e'.1 hf0).2]; simp
+                | false =>
+                  have hw0 := hwf.el_w c hca e' he'
+                  by_cases hw' : 0 < e'.2
+                  · have hin := hspec.2.2 c hcs e' he' hw' hf0
+                    have h2 := hsel e'.1 hin (Or.inl hneg)
+                    rw [h2.1, h2.2]; simp only [hneg, if_true]; simp; ring
+                  · have : e'.2 = 0 := by linarith
+                    simp [this]
+              have h1 := (hsat c hcs).2
+              rw [hK0r c hca hfp, hK0u c hca hfp] at h1
+              rw [hfl]; linarith
+            | true =>
+              right
+              refine ⟨rfl, ?_⟩
+              -- the consumer that attains usage_ gets min_usage/penalty: its w·value is the whole capacity
+              have hup := (hR.l.li_pos c hcl).2
+              obtain ⟨e0, he0, hw0, hu0, h0⟩ := hA c hca hfp hup
+              have hfe0 : st.fixed e0.1 = false := by
+                rcases h0 with h0 | h0
+                · exact h0
+                · exact absurd h0.2 (by simp)
+              have h2 := hsel e0.1 (hspec.2.2 c hcs e0 he0 hw0 hfe0) (Or.inl hneg)
+              refine ⟨e0, he0, hw0, h2.1, ?_⟩
+              have h1 := (hsat c hcs).2
+              rw [hR.k.ft_rem c hca hfp, ← hu0] at h1
+              rw [h2.2]; simp only [hneg, if_true]
+              rw [← h1]; ring
           · intro e' he' hw'
             have := hle1 e'.1 (hclosed e' he' hw')
             rw [hv]; simp only [hneg, if_true]; rw [div_mul_cancel₀ _ (ne_of_gt hp)]; exact this
@@ -215,26 +240,66 @@ theorem round_bn (S : Sys) (hwf : WF S) (hsh : ∀ c ∈ S.active, (S.cnst c).fa
       rw [hr.2.2.2.2.2.2.1] at hc
       rw [hr.2.2.2.2.2.2.2.1, hr.2.2.2.2.2.2.2.2]
       have hca := hL1.li_act c hc
-      rw [hK1r c hca (hsh c hca), hK1u c hca (hsh c hca)]
-      exact hG1.sh_B c hca (hsh c hca)
+      cases hfp : (S.cnst c).fatpipe with
+      | false =>
+        rw [hK1r c hca hfp, hK1u c hca hfp]
+        exact hG1.sh_B c hca hfp
+      | true =>
+        rw [hK1.ft_rem c hca hfp]
+        exact hK1.ft_B c hca hfp
 
-theorem loop_bn (S : Sys) (hwf : WF S) (hsh : ∀ c ∈ S.active, (S.cnst c).fatpipe = false) :
-    ∀ (fuel : Nat) (st st' : St), RInv S st (satVarUpdate S st []) →
+/-- `get_load()` of a FATPIPE constraint (the weighted max) is at least every `w·value` with w > 0 -/
+theorem load_fat_ge (S : Sys) (val : Nat → Rat) (c : Nat) (hf : (S.cnst c).fatpipe = true) (e : Nat × Rat)
+    (he : e ∈ (S.cnst c).elems) (hw : 0 < e.2) : e.2 * val e.1 ≤ load S val c := by
+  unfold load
+  simp only [hf, Bool.not_true, Bool.false_eq_true, if_false]
+  have gen : ∀ (l : List (Nat × Rat)) (a : Rat),
+      a ≤ l.foldl (fun s e => if 0 < e.2 then (if s < e.2 * val e.1 then e.2 * val e.1 else s) else s) a ∧
+      ∀ e ∈ l, 0 < e.2 → e.2 * val e.1 ≤
+        l.foldl (fun s e => if 0 < e.2 then (if s < e.2 * val e.1 then e.2 * val e.1 else s) else s) a := by
+    intro l
+    induction l with
+    | nil => intro a; simp
+    | cons b t ih =>
+      intro a
+      simp only [List.foldl_cons]
+      have h1 := ih (if 0 < b.2 then (if a < b.2 * val b.1 then b.2 * val b.1 else a) else a)
+      have ha : a ≤ (if 0 < b.2 then (if a < b.2 * val b.1 then b.2 * val b.1 else a) else a) := by
+        split
+        · split
+          · linarith
+          · exact le_refl _
+        · exact le_refl _
+      refine ⟨le_trans ha h1.1, ?_⟩
+      intro e he hw
+      simp at he
+      rcases he with rfl | he
+      · refine le_trans ?_ h1.1
+        simp only [hw, if_true]
+        split
+        · exact le_refl _
+        · linarith
+      · exact h1.2 e he hw
+  exact (gen _ 0).2 e he hw
+
+theorem loop_bn (S : Sys) (hwf : WF S) :
+    ∀ (fuel : Nat) (st st' : St), RInv S st (satVarUpdate S st []) → InvA S st 0 [] →
       (∃ M, BN S M st.fixed st.value ∧ ∀ c ∈ st.light, M * st.usage c ≤ st.remaining c) →
       loop S 0 fuel st (satVarUpdate S st []) = some st' →
       (∃ M, BN S M st'.fixed st'.value) ∧ RInv S st' (satVarUpdate S st' []) ∧ st'.light = [] := by
   intro fuel
   induction fuel with
-  | zero => intro st st' _ _ h; simp [loop] at h
+  | zero => intro st st' _ _ _ h; simp [loop] at h
   | succ n ih =>
-    intro st st' hR ⟨M, hBN, hM⟩ h
+    intro st st' hR hA ⟨M, hBN, hM⟩ h
     rw [loop] at h
     have hr := round_inv S hwf st _ hR
-    obtain ⟨M', hbn', hM'⟩ := round_bn S hwf hsh st M hR hBN hM
+    have hrA := round_invA S hwf st _ hR hA
+    obtain ⟨M', hbn', hM'⟩ := round_bn S hwf st M hR hA hBN hM
     split at h
     · rename_i he
       simp at h; subst h
       exact ⟨⟨M', hbn'⟩, hr, by simpa using he⟩
-    · exact ih _ st' hr ⟨M', hbn', hM'⟩ h
+    · exact ih _ st' hr hrA ⟨M', hbn', hM'⟩ h
 
 end SgVerif.Lmm
